@@ -28,6 +28,7 @@ func init() {
 			Trusted:     commonTrusted,
 		},
 		Mutants: []Mutant{
+			{Name: "content closure skipped for blank content (agent seed C03/2 seen from C08)", File: "eval.go", Old: "\tmycontent := st.content\n\tif content != nil {", New: "\tmycontent := st.content\n\tif content != nil && !IsEmptyTree(content) {", Rule: "C08.content"},
 			{Name: "re-imported templates are merged only once (agent seed C08/1)", File: "parse.go", Old: "\tfor _, _import := range t.imports {\n\t\tt.addBlocks(_import.processedBlocks)\n\t}", New: "\tmerged := make(map[*Template]struct{}, len(t.imports))\n\tfor _, _import := range t.imports {\n\t\tif _, done := merged[_import]; done {\n\t\t\tcontinue\n\t\t}\n\t\tmerged[_import] = struct{}{}\n\t\tt.addBlocks(_import.processedBlocks)\n\t}", Rule: "C08.order"},
 			{Name: "defaults loop stops once enough variables exist (agent seed C08/2)", File: "eval.go", Old: "\t\tfor i := 0; i < len(blockParam.List); i++ {\n\t\t\tp := &blockParam.List[i]\n\t\t\tif _, found", New: "\t\tfor i := 0; i < len(blockParam.List) && len(st.variables) < len(blockParam.List); i++ {\n\t\t\tp := &blockParam.List[i]\n\t\t\tif _, found", Rule: "C08.params"},
 			{Name: "own blocks merged before the extended chain", File: "parse.go", Old: "\tif t.extends != nil {\n\t\tt.addBlocks(t.extends.processedBlocks)\n\t}\n\n\tfor _, _import := range t.imports {\n\t\tt.addBlocks(_import.processedBlocks)\n\t}\n\n\tt.addBlocks(t.passedBlocks)\n", New: "\tt.addBlocks(t.passedBlocks)\n\n\tif t.extends != nil {\n\t\tt.addBlocks(t.extends.processedBlocks)\n\t}\n\n\tfor _, _import := range t.imports {\n\t\tt.addBlocks(_import.processedBlocks)\n\t}\n", Rule: "C08.order"},
@@ -914,6 +915,38 @@ func c08content(c *an.Ctx) {
 			}
 		}
 	}
+	// the closure is installed whenever the yield supplies content — independent of what the content looks like
+	{
+		var bodyCalls []ast.Node
+		an.InspectOwn(f, func(n ast.Node) bool {
+			if call, ok := n.(*ast.CallExpr); ok && an.IsCallTo(info, call, execList) && strings.HasSuffix(an.Str(call.Args[0]), ".List") {
+				bodyCalls = append(bodyCalls, call)
+			}
+			return true
+		})
+		pr := p.ProbeFn(f, bodyCalls, an.Hooks{PreAssign: func(x *an.Explorer, lhs, rhs ast.Expr, stmt ast.Node, st *an.State) {
+			if p.FieldKey(info, lhs) == "Runtime.content" && rhs != nil {
+				if _, isLit := an.Unparen(rhs).(*ast.FuncLit); isLit {
+					st.Set("installed", "1")
+				}
+			}
+		}})
+		c.States += pr.X.Visited
+		ok, seen := true, false
+		for _, bc := range bodyCalls {
+			for _, st := range pr.At[bc] {
+				if an.FactIs(st, "content == nil", false) {
+					seen = true
+					if st.Get("installed") == "" {
+						ok = false
+					}
+				}
+			}
+		}
+		c.Check(ok && seen, "C08.content", "(*Runtime).executeYieldBlock/installed", f.Pos(), "whenever the yield (or the block's default) supplies content, the content closure is installed before the block body runs",
+			"the block body can run without the content closure being installed although content was supplied: `yield content` renders nothing — or an enclosing yield's content — depending on what the content looks like")
+	}
+
 	// the captured scope is loaded after the parameter scope was pushed
 	var pushPos, capPos token.Pos
 	an.InspectOwn(f, func(n ast.Node) bool {
